@@ -19,13 +19,15 @@ pub const ENTRIES: [&str; 11] =
     ["fen_board", "fen_raw", "uci_move", "from_uci", "san_move", "from_san", "uci_list", "coord", "cell", "color", "rights"];
 
 /// Positions used by the entry points that need one.
-pub const POSITIONS: [&str; 6] = [
+pub const POSITIONS: [&str; 8] = [
     "rnbqkbnr/pppppppp/8/8/8/8/PPPPPPPP/RNBQKBNR w KQkq - 0 1",
     "r3k2r/p1ppqpb1/bn2pnp1/3PN3/1p2P3/2N2Q1p/PPPBBPPP/R3K2R w KQkq - 0 1",
     "r2q1rk1/pP1p2pp/Q4n2/bbp1p3/Np6/1B3NBn/pPPP1PPP/R3K2R b KQ - 0 1",
     "3K4/3p4/8/3PpP2/8/5p2/6P1/2k5 w - e6 0 1",
     "2n2n1n/3P2P1/8/8/8/8/3K1k2/8 w - - 0 1",
     "7k/8/8/8/8/8/8/K7 b - - 65535 65535",
+    "6k1/8/8/8/8/Q1Q5/7K/Q7 w - - 0 1",
+    "4k3/6K1/8/n1n5/8/1R6/8/n1n5 b - - 0 1",
 ];
 
 fn board_of(fen: &str) -> Result<Board, Failure> {
@@ -343,11 +345,70 @@ fn short_driver(_ctx: &RunCtx, stats: &mut Stats, rep: &mut Reporter) {
                     }
                 }
             }
-            let case = json!({"entry": entry, "text": s, "fen": POSITIONS[(idx % 5) as usize]});
+            let case = json!({"entry": entry, "text": s, "fen": POSITIONS[(idx % 7) as usize]});
             if let Err(f) = guarded("C12", "short_strings_exhaustive", check_case, &case, st) {
                 if fails.len() < 6 {
                     fails.push((case, f));
                 }
+            }
+        }
+    });
+}
+
+/// "Any length": UCI lists of several hundred thousand plies (one position recurring tens of thousands of times)
+/// and FEN-like texts of a megabyte must be handled like any other input.
+fn long_check(case: &Value, stats: &mut Stats) -> CheckResult {
+    let kind = case["kind"].as_str().unwrap_or("");
+    let reps = case["reps"].as_u64().unwrap_or(1) as usize;
+    match kind {
+        "uci_cycle" => {
+            let unit = case["unit"].as_str().unwrap_or("g1f3 g8f6 f3g1 f6g8 ");
+            let plies = unit.split_ascii_whitespace().count() * reps;
+            let text = unit.repeat(reps);
+            let mut chain = MoveChain::new(board_of(POSITIONS[0])?);
+            match chain.push_uci_list(&text) {
+                Ok(()) => ensure!(chain.len() == plies, "push_uci_list of {} legal plies left {} moves", plies, chain.len()),
+                Err(e) => fail!("push_uci_list of {} legal plies failed at {}: {}", plies, e.pos, e.source),
+            }
+            let _ = chain.calc_outcome();
+            let back = chain.uci().to_string();
+            ensure!(back.split(' ').count() == plies, "uci() of the long chain has the wrong number of tokens");
+            while chain.pop().is_some() {}
+            ensure!(chain.last() == &board_of(POSITIONS[0])?, "popping the long list does not restore the start");
+            stats.add("plies", plies as u64);
+        }
+        _ => {
+            let unit = case["unit"].as_str().unwrap_or("8/");
+            let text = unit.repeat(reps);
+            for entry in ["fen_board", "fen_raw", "uci_move", "san_move", "from_san", "uci_list", "coord", "rights"] {
+                run_entry(entry, &text, POSITIONS[0], stats)?;
+            }
+            stats.add("bytes", text.len() as u64);
+        }
+    }
+    stats.label("very_long_input");
+    stats.nontrivial(&(kind.to_string(), reps, case["unit"].to_string()));
+    Ok(())
+}
+
+fn long_driver(_ctx: &RunCtx, stats: &mut Stats, rep: &mut Reporter) {
+    let cases: Vec<Value> = [
+        r#"{"kind":"uci_cycle","unit":"g1f3 g8f6 f3g1 f6g8 ","reps":66000}"#,
+        r#"{"kind":"uci_cycle","unit":"b1c3\tb8c6\nc3b1  c6b8 ","reps":33000}"#,
+        r#"{"kind":"text","unit":"8/","reps":400000}"#,
+        r#"{"kind":"text","unit":"e2e4 ","reps":200000}"#,
+        r#"{"kind":"text","unit":"€","reps":300000}"#,
+        r#"{"kind":"text","unit":"rnbqkbnr/pppppppp/8/8/8/8/PPPPPPPP/RNBQKBNR w KQkq - 0 1 ","reps":20000}"#,
+    ]
+    .iter()
+    .map(|t| serde_json::from_str(t).unwrap())
+    .collect();
+    let cases = &cases;
+    par_chunks(cases.len() as u64, stats, rep, |range, st, fails| {
+        for i in range {
+            let c = &cases[i as usize];
+            if let Err(f) = guarded("C12", "very_long_inputs", long_check, c, st) {
+                fails.push((c.clone(), f));
             }
         }
     });
@@ -360,7 +421,8 @@ pub fn property() -> Property {
                san::Move::from_str, Move::from_san, MoveChain::push_uci_list/from_uci_list, Coord, Cell, Color, CastlingRights), in six \
                positions where one is needed. Generated: grammar FEN/SAN, canonical texts with 1-2 edits (insert/delete/replace/transpose/ \
                truncate/duplicate), multi-byte substitutions (2-, 3-, 4-byte characters so that byte lengths coincide with valid lengths), \
-               alphabet strings, arbitrary scalar values, inputs up to ~10 kB; exhaustive: every string of length <= 3 over a 25-symbol \
+               alphabet strings, arbitrary scalar values, inputs up to ~10 kB; very_long_inputs: UCI lists of 132,000-264,000 legal plies \
+               (one position recurring 33,000-66,000 times) and megabyte texts; exhaustive: every string of length <= 3 over a 25-symbol \
                alphabet (incl. multi-byte) for every entry point. Oracle: no panic (catch_unwind; aborts attributed by the panic hook in the \
                checked build) and for every Ok(v): parse(format(v)) == Ok(v); for UCI lists the chain rebuilt from its own UCI text is \
                equal and the error position equals the number of moves pushed. Non-trivial = accepted, or rejected beyond the first-line \
@@ -369,7 +431,7 @@ pub fn property() -> Property {
         subchecks: vec![
             SubCheck {
                 name: "generated_strings",
-                driver: Driver::Generated { gen: gen_case, genome_len: 384, quick: 3_000_000, thorough: 80_000_000 },
+                driver: Driver::Generated { gen: gen_case, genome_len: 384, quick: 9_000_000, thorough: 80_000_000 },
                 check: check_case,
                 configs: Configs::Both,
                 required: &["accepted", "deep_rejection", "non_ascii", "entry:fen_board", "entry:uci_move", "entry:from_san", "entry:uci_list", "entry:rights"],
@@ -384,6 +446,15 @@ pub fn property() -> Property {
                     r#"{"entry":"from_san","text":"N€","fen":"rnbqkbnr/pppppppp/8/8/8/8/PPPPPPPP/RNBQKBNR w KQkq - 0 1"}"#,
                     r#"{"entry":"uci_list","text":"e2e4 aé4","fen":"rnbqkbnr/pppppppp/8/8/8/8/PPPPPPPP/RNBQKBNR w KQkq - 0 1"}"#,
                 ],
+                exhaustive: false,
+            },
+            SubCheck {
+                name: "very_long_inputs",
+                driver: Driver::Custom { run: long_driver },
+                check: long_check,
+                configs: Configs::Both,
+                required: &["very_long_input"],
+                regressions: &[],
                 exhaustive: false,
             },
             SubCheck {
